@@ -6,6 +6,7 @@ mod exec;
 mod explore;
 mod interpose;
 mod model;
+mod pmodel;
 mod props;
 mod raw;
 mod sched;
